@@ -10,8 +10,13 @@ ap.add_argument('--seeds', default='all')
 ap.add_argument('--jobs', type=int, default=4)
 ap.add_argument('--nproc', type=int, default=4)
 ap.add_argument('--tier', default='quick')
+ap.add_argument('--resume', action='store_true', help='skip seed/check pairs whose log in tools/sweeplogs is newer than tools/sweeplogs/.start')
 ap.add_argument('--own', action='store_true', help='only run each seed against the check of its own property')
 a = ap.parse_args()
+MARK = os.path.join(HERE, 'tools', 'sweeplogs', '.start')
+os.makedirs(os.path.dirname(MARK), exist_ok=True)
+if not a.resume or not os.path.exists(MARK):
+    open(MARK, 'w').write('x')
 seeds = sorted(os.listdir(os.path.join(HERE, 'seeded'))) if a.seeds == 'all' else a.seeds.split(',')
 checks = a.checks.split(',')
 def run(seed):
@@ -27,6 +32,12 @@ def run(seed):
                 meta = json.load(open(os.path.join(HERE, 'seeded', seed, 'meta.json')))
                 if c not in (meta.get('properties') or [meta['property']]):
                     continue
+            lf = os.path.join(HERE, 'tools', 'sweeplogs', f'{seed}-{c}.log')
+            if a.resume and os.path.exists(lf) and os.path.exists(MARK) and os.path.getmtime(lf) > os.path.getmtime(MARK) and 'SUMMARY' in open(lf).read():
+                txt = open(lf).read()
+                rc = 1 if 'VIOLATION property=' in txt else (2 if ('HARNESS-ERROR' in txt or 'ENGINE-MISMATCH' in txt) else 0)
+                res[c] = (rc, ['(from earlier run)'] + [l for l in txt.splitlines() if l.startswith('  why')][:2])
+                continue
             env = dict(os.environ, CCT_VERIF_REPO=wt, CCT_VERIF_OUT=out)
             p = subprocess.run([os.path.join(HERE, 'check'), c, '--tier', a.tier, '--nproc', str(a.nproc)], capture_output=True, text=True, env=env)
             lines = [l for l in p.stdout.splitlines() if l.startswith(('VIOLATION', '  why', 'INCONCLUSIVE', 'ENGINE-MISMATCH', 'HARNESS-ERROR', 'lemma')) and 'proved [' not in l or 'NOT proved' in l]
